@@ -7,6 +7,7 @@ import (
 	"golang.org/x/tools/go/ssa"
 	"os"
 	"runtime/debug"
+	"strconv"
 	"strings"
 )
 
@@ -704,6 +705,59 @@ func (sc *SpecCtx) call(e *Expr) Value {
 			}
 		}
 		sc.fail("rangelen() outside a range-over-slice loop")
+	case "lastkey_in": // lastkey_in(n): the key most recently produced by map range loop number n
+		if len(e.Args) != 1 || e.Args[0].Op != "int" {
+			sc.fail("lastkey_in(loop ordinal)")
+		}
+		wantL, _ := strconv.Atoi(e.Args[0].Val)
+		for hdr, ord := range sc.x.fx.headers {
+			if ord != wantL {
+				continue
+			}
+			for _, ins := range hdr.Instrs {
+				nx, ok := ins.(*ssa.Next)
+				if !ok || nx.IsString {
+					continue
+				}
+				rng, _ := nx.Iter.(*ssa.Range)
+				if rng == nil {
+					continue
+				}
+				_, kk, _ := mapKeys(rng.X.Type())
+				ksort := scalarSort(kk)
+				it := sc.x.get(st, nx.Iter)
+				lh := st.heapTermIn(sc.cur, "ghost:lastkey:"+ksort, 1, ksort)
+				return Value{K: kk, T: fmt.Sprintf("(select %s %s)", lh, it.T), Ty: rng.X.Type().Underlying().(*types.Map).Key()}
+			}
+		}
+		sc.fail("lastkey_in: loop %d is not a map range loop", wantL)
+	case "visited_in": // visited_in(n, k): key k was already produced by the map range loop number n
+		if len(e.Args) != 2 || e.Args[0].Op != "int" {
+			sc.fail("visited_in(loop ordinal, key)")
+		}
+		want, _ := strconv.Atoi(e.Args[0].Val)
+		for hdr, ord := range sc.x.fx.headers {
+			if ord != want {
+				continue
+			}
+			for _, ins := range hdr.Instrs {
+				nx, ok := ins.(*ssa.Next)
+				if !ok || nx.IsString {
+					continue
+				}
+				rng, _ := nx.Iter.(*ssa.Range)
+				if rng == nil {
+					continue
+				}
+				_, kk, _ := mapKeys(rng.X.Type())
+				ksort := scalarSort(kk)
+				it := sc.x.get(st, nx.Iter)
+				k := sc.eval(e.Args[1])
+				vh := st.heapTermIn(sc.cur, "ghost:visited:"+ksort, 1, "(Array "+ksort+" Bool)")
+				return boolV(fmt.Sprintf("(select (select %s %s) %s)", vh, it.T, k.T))
+			}
+		}
+		sc.fail("visited_in: loop %d is not a map range loop", want)
 	case "rangepos":
 		if sc.resolver != nil {
 			if v, ok := sc.resolver("$rangepos"); ok {
